@@ -146,7 +146,8 @@ def generate_and_match(env, key, case):
     pep = PEP()
     f, p = declare(env, pep, key, case.get('spec', {}))
     if case.get('named'):
-        f.set_name("phi")
+        # (a LaTeX-like name with a brace group every third case: legal, and must survive name formatting)
+        f.set_name("phi_{1}" if case.get('named') == 'braces' else "phi")
     trace = run_history(env, f, key, case)
     if case.get('named'):
         for k, t in enumerate(f.list_of_points):
